@@ -193,6 +193,60 @@ def _child_dump(d: str, schema_opt: bool, outfd: int) -> None:
     os.write(outfd, json.dumps(out).encode())
 
 
+def _child_conflict(d: str, spec: dict, outfd: int) -> None:
+    """two connections of ONE instance with overlapping transactions inserting the same PRIMARY KEY value; every
+    session keeps a ledger of what it was TOLD (COMMIT returned / raised); then the process exits or is killed"""
+    import fakesnow
+    import snowflake.connector
+    told = {}
+    with fakesnow.patch(db_path=d):
+        conns = {n: snowflake.connector.connect(database="db1", schema="s1") for n in ("a", "b")}
+        curs = {n: c.cursor() for n, c in conns.items()}
+        curs["a"].execute("create table t0 (k int primary key, v int)")
+        for n in ("a", "b"):
+            curs[n].execute("begin")
+        for n in spec["insert_order"]:
+            for k, v in spec["rows"][n]:
+                curs[n].execute(f"insert into t0 (k, v) values ({k}, {v})")
+        for n in spec["commit_order"]:
+            try:
+                if spec["api"]:
+                    conns[n].commit()
+                else:
+                    curs[n].execute("commit")
+                    curs[n].fetchall()
+                told[n] = "committed"
+            except Exception as e:  # noqa: BLE001
+                told[n] = f"raised {type(e).__name__}"
+                conns[n].rollback()
+        for n in ("a", "b"):                       # afterwards both sessions are in autocommit again
+            k = spec["after"][n]
+            try:
+                curs[n].execute(f"insert into t0 (k, v) values ({k}, {k})")
+                told["after_" + n] = "ok"
+            except Exception as e:  # noqa: BLE001
+                told["after_" + n] = f"raised {type(e).__name__}"
+        os.write(outfd, json.dumps(told).encode())
+        if spec["exit"] == "kill":
+            os.kill(os.getpid(), signal.SIGKILL)
+
+
+def _run_conflict(job) -> dict:
+    d = tempfile.mkdtemp(prefix="c18-")
+    try:
+        status, raw = _fork(_child_conflict, d, job["spec"])
+        text = raw.decode(errors="replace")
+        if "!EXC" in text:
+            return {"err": text[-400:]}
+        told = json.loads(text) if text else None
+        st, out = _fork(_child_dump, d, False)
+        if st != 0 or b"!EXC" in out:
+            return {"told": told, "dump_err": out.decode(errors="replace")[-400:]}
+        return {"told": told, "dump": json.loads(out.decode())}
+    finally:
+        shutil.rmtree(d, ignore_errors=True)
+
+
 def _fork(fn, *args) -> tuple[int, bytes]:
     """run fn(*args, fd) in a forked child; returns (wait status, bytes written to fd)"""
     r, w = os.pipe()
@@ -322,7 +376,7 @@ def _worker(shard):
     import fakesnow.instance  # noqa: F401
     import pyarrow  # noqa: F401
     import snowflake.connector  # noqa: F401
-    return [(_run_memory(j) if j["mode"] == "memory" else _run_point(j)) for j in shard]
+    return [(_run_memory(j) if j["mode"] == "memory" else _run_conflict(j) if j["mode"] == "conflict" else _run_point(j)) for j in shard]
 
 
 # ------------------------------------------------------------------------------------------------
@@ -445,15 +499,26 @@ def run(chk) -> None:
     for hi, h in enumerate(hists):
         jobs1.append({"hi": hi, "hist": h, "kill": None, "mode": "clean", "schema_opt": False})
         jobs1.append({"hi": hi, "hist": h, "kill": None, "mode": "raise", "schema_opt": hi % 2 == 0})
+    for ci in range(6 if quick else 24):
+        first = rnd.choice("ab")
+        k = rnd.randrange(1, 5)
+        spec = {"rows": {"a": [(k, 10), (k + 10, 11)], "b": [(k + 20, 21), (k, 20)]},
+                "insert_order": rnd.choice([["a", "b"], ["b", "a"]]), "commit_order": [first, "b" if first == "a" else "a"],
+                "api": ci % 2 == 0, "after": {"a": 71, "b": 72}, "exit": "kill" if ci % 3 else "clean"}
+        jobs1.append({"hi": -1, "mode": "conflict", "spec": spec})
     jobs1.append({"hi": 0, "hist": hists[0], "mode": "memory"})
     jobs1.append({"hi": 0, "hist": hists[2], "mode": "memory"})
     res1 = [r for shard in common.shard_map(_worker, common.chunks(jobs1, 16)) for r in shard]
     res1 = dict(zip([id(j) for shard in common.chunks(jobs1, 16) for j in shard], res1))
     totals, firstlen = {}, {}
+    conflicts = []
     for j in jobs1:
         r = res1[id(j)]
         if j["mode"] == "memory":
             _check_memory(chk, j, r)
+            continue
+        if j["mode"] == "conflict":
+            conflicts.append((j, r))
             continue
         if j["mode"] == "clean":
             totals[j["hi"]] = sum(len(c) for c in r["calls"])
@@ -491,7 +556,11 @@ def run(chk) -> None:
     res2_flat = [r for shard in common.shard_map(_worker, common.chunks(jobs2, 16)) for r in shard]
     order2 = [j for shard in common.chunks(jobs2, 16) for j in shard]
     # model
-    all_jobs = [(j, res1[id(j)]) for j in jobs1 if j["mode"] != "memory"] + list(zip(order2, res2_flat))
+    if conflicts:
+        creps = common.batch(["\t".join(["crash", "run", ";".join(_conflict_history(j["spec"])), "-"]) for j, _ in conflicts])
+        for (j, r), rep in zip(conflicts, creps):
+            _check_conflict(chk, j, r, rep)
+    all_jobs = [(j, res1[id(j)]) for j in jobs1 if j["mode"] not in ("memory", "conflict")] + list(zip(order2, res2_flat))
     lines = []
     for j, r in all_jobs:
         h = ";".join(j["hist"])
@@ -514,6 +583,47 @@ def run(chk) -> None:
                        "ATTACH / CREATE DATABASE are not placed inside explicit transactions (ATTACH is not transactional in DuckDB)"]
     chk.trusted += ["DuckDB WAL/fsync durability and atomicity of one engine call; an auto-committed call is durable when execute() returns; "
                     "BEGIN..COMMIT is durable at COMMIT; ATTACH creates the database file at once; the OS"]
+
+
+def _conflict_history(spec) -> list[str]:
+    """the history as the model sees it: the first committer's block commits, the second one's COMMIT is rejected (`x`)"""
+    w, l = spec["commit_order"]
+    h = ["N11.1", "T0.-.-", "b"] + [f"i0.{k}.{v}" for k, v in spec["rows"][w]] + ["c", "b"] + \
+        [f"i0.{k}.{v}" for k, v in spec["rows"][l]] + ["x"]
+    return h + [f"i0.{spec['after'][n]}.{spec['after'][n]}" for n in ("a", "b")]
+
+
+def _check_conflict(chk, job, r, rep) -> None:
+    spec = job["spec"]
+    case = {"kind": "conflict", "spec": spec}
+    chk.case(("conflict", json.dumps(spec, sort_keys=True)), nontrivial=True, sample=case if chk.evaluations % 7 == 0 else None)
+    chk.count("mode:conflict")
+    if "err" in r or r.get("told") is None:
+        raise common.Infra(f"conflict child failed: {r}")
+    if "dump_err" in r:
+        chk.violation(f"two sessions with a commit-time conflict ({spec}): the directory cannot be opened afterwards: {r['dump_err']}", case,
+                      broken="C18_committed_survive (recover)")
+        return
+    told = r["told"]
+    real = _canon_real(r["dump"], False)
+    found = {tuple(x) for t in real["tables"] if t[0] == 0 for x in t[3]}
+    promised = set()
+    for n in ("a", "b"):
+        if told.get(n) == "committed":
+            promised |= {tuple(x) for x in spec["rows"][n]}
+        if told.get("after_" + n) == "ok":
+            promised.add((spec["after"][n], spec["after"][n]))
+    desc = (f"two sessions of one instance, overlapping transactions inserting {spec['rows']} (same PRIMARY KEY {spec['rows']['a'][0][0]}), commit order "
+            f"{spec['commit_order']} via {'conn.commit()' if spec['api'] else 'COMMIT'}, then {spec['exit']}: the sessions were told {told}; "
+            f"a later process finds rows {sorted(found)}")
+    if found != promised:
+        chk.violation(f"{desc} - committed but lost: {sorted(promised - found)}; never committed but present: {sorted(found - promised)}", case,
+                      broken="C18_committed_survive / C18_failed_commit_leaves_nothing (what a session was told vs what a later process finds)")
+        return
+    impl = _canon_model(rep["impl"])
+    if real != impl or not str(told.get(spec["commit_order"][1], "")).startswith("raised"):
+        chk.violation(f"{desc}; the model (second COMMIT is rejected and raises) predicts {impl}", case,
+                      broken="Fs.Crash commitConflict (correspondence)", failing_input=False)
 
 
 def _check_memory(chk, job, r) -> None:
@@ -604,6 +714,12 @@ def _check_point(chk, job, r, rep) -> None:
 
 
 def replay(chk, case) -> None:
+    if case["kind"] == "conflict":
+        job = {"mode": "conflict", "spec": case["spec"]}
+        r = _run_conflict(job)
+        rep = common.batch(["\t".join(["crash", "run", ";".join(_conflict_history(case["spec"])), "-"])])[0]
+        _check_conflict(chk, job, r, rep)
+        return
     if case["kind"] == "memory":
         _check_memory(chk, {"hist": case["hist"], "mode": "memory"}, _run_memory({"hist": case["hist"]}))
         return
